@@ -620,17 +620,26 @@ def r3g(ctx: Ctx) -> list[Ob]:
                 out.append(ok("R3g", f.qualname, inst_g, "returned only under a comparison of the index with a range", loc))
             elif not elementwise:
                 out.append(viol("R3g", f.qualname, inst_g, f"the index-free form {unparse(sc)} is chosen without comparing the elements of the cumulative index with anything (only lengths / counts are tested): an index of the right length that selects other folds, or the same folds in another order, is replaced by 'take everything in storage order'", loc))
+            elif not any(_reads_elements(ld, x, idx_names, whole=True) for n in elementwise for x in [n.left, *n.comparators]):
+                out.append(viol("R3g", f.qualname, inst_g, f"the form {unparse(sc)} is chosen after inspecting only fixed positions of the cumulative index (`{unparse(elementwise[0])[:70]}`): the endpoints and the length of [0, 2, 1, 3] or [0, 1, 1, 3] are those of the contiguous range 0..3, so a permuted or repeating index is replaced by a plain slice of the storage", loc))
             else:
                 out.append(unres("R3g", f.qualname, inst_g, "guarded by an element-wise comparison this rule has no model of: no verdict", loc))
     return out
 
 
-def _reads_elements(ld: LocalDefs, e: ast.AST, idx_names: set[str]) -> bool:
-    """does the expression depend on the *elements* of the cumulative index (not only on lengths)?"""
+def _reads_elements(ld: LocalDefs, e: ast.AST, idx_names: set[str], whole: bool = False) -> bool:
+    """does the expression depend on the *elements* of the cumulative index (not only on lengths)?
+    whole=True: ... on all of them (a read of a fixed position, ``idx[0]`` / ``idx[-1]``, does not count)"""
 
     def visit(n: ast.AST, comp_targets: frozenset[str]) -> bool:
         if isinstance(n, ast.Call) and isinstance(n.func, ast.Name) and n.func.id == "len":
             return False
+        if whole and isinstance(n, ast.Subscript) and isinstance(n.value, ast.Name) and n.value.id in idx_names:
+            sl = n.slice
+            if isinstance(sl, ast.UnaryOp) and isinstance(sl.op, ast.USub):
+                sl = sl.operand
+            if isinstance(sl, ast.Constant) and isinstance(sl.value, int):
+                return False
         if isinstance(n, (ast.ListComp, ast.GeneratorExp, ast.SetComp)):
             # elements are read if the comprehension's *element* uses them; iterating only to count does not
             bound = set(comp_targets)
